@@ -193,6 +193,7 @@ class Agent:
         self.respond_hook = None   # f(agent, req) -> bytes | None, before normal processing of an accepted request
         self.mangle = None         # f(agent, req, response_bytes) -> bytes
         self.salt_counter = 0
+        self.salt_mode = "default"   # shape of msgPrivacyParameters in encrypted responses (any octet string is legal)
         self.honor_reportable = True
         self.trace = []  # free-form flags used as known-finding triggers
         self.counter_base = 0      # the usmStats counters did not start at zero (Counter32: they wrap at 2^32)
@@ -530,6 +531,8 @@ class Agent:
         if flags & 2:
             self.salt_counter += 1
             salt = b"AG" + self.boots.to_bytes(2, "big") + self.salt_counter.to_bytes(4, "big")
+            salt = {"default": salt, "counter16": self.salt_counter.to_bytes(16, "big"), "zeros12": b"\x00" * 12,
+                    "zeros8": b"\x00" * 8, "empty": b"", "long40": (salt * 5)[:40], "ff12": b"\xff" * 12}[self.salt_mode]
             enc, dec = PRIV_IMPL[user.priv]
             body = vber.enc_octets(enc(self.priv_key(user), salt, scoped))
         req["response_scoped"] = scoped
